@@ -365,6 +365,11 @@ func (c *FnCtx) applyContract(st *State, fc *FuncContract, sig *types.Signature,
 		g := sc2.eval(en.E)
 		st.assume(g.S)
 	}
+	for _, en := range fc.Trusts {
+		g := sc2.eval(en.E)
+		st.assume(g.S)
+		c.e.trusted["unchecked postcondition (trusts) of "+shortFn(key)+": "+strings.TrimSpace(en.Src)] = true
+	}
 	if fc.Assumed {
 		c.e.trusted["assumed contract: "+key] = true
 	}
